@@ -6,6 +6,7 @@ below the sync layer's last confirmed frame — whose state is final — and not
 while the next report frame is not yet confirmed. The absence of false alarms over whole runs
 and the detection of real divergence are decided on traces (monitor C09, families desync/glitch).
 -/
+import GgrsModel.Model.Inventory
 import GgrsModel.Model.P2P
 import GgrsModel.Proofs.Monad
 
